@@ -344,6 +344,29 @@ class ProgGen:
             raise _Skip
         return self.add({"op": "getitem", "args": [a], "index": _enc_index(idx)})
 
+    def g_getitem_explicit(self):
+        """basic index whose slices carry explicit integer start AND stop (often non-empty, both step signs):
+        the clamping / emptiness arithmetic of pushdown rules sees other inputs than with open-ended slices"""
+        a = self.pick()
+        shape = self.env[a].shape
+        if not shape:
+            raise _Skip
+        rng = self.rng
+        idx = []
+        for d in shape:
+            r = rng.random()
+            if r < 0.25 or d == 0:
+                idx.append(slice(None))
+                continue
+            step = rng.choice([-3, -2, -1, -1, 1, 2])
+            lo, hi = sorted((rng.randint(0, d + 1), rng.randint(0, d + 1)))
+            if rng.random() < 0.8 and lo == hi:
+                hi = lo + 1
+            if rng.random() < 0.3:
+                lo, hi = lo - d - 1, hi  # negative spelling of one bound
+            idx.append(slice(hi, lo, step) if step < 0 else slice(lo, hi, step))
+        return self.add({"op": "getitem", "args": [a], "index": _enc_index(tuple(idx))})
+
     def g_take(self):
         a = self.pick()
         x = self.env[a]
@@ -520,6 +543,37 @@ class ProgGen:
         if x.shape[ax] < 2:
             raise _Skip
         return self.add({"op": "diff", "args": [a], "axis": ax})
+
+
+class Directed(ProgGen):
+    """ProgGen whose operand choice is the most recent variable: builds chains."""
+
+    last = None
+
+    def pick(self):
+        return self.last
+
+    def add(self, step, tags=()):
+        self.last = super().add(step, tags)
+        return self.last
+
+
+def directed_programs(rng, n, patterns, **kw):
+    """n short chains, pattern i % len(patterns): a fresh source followed by the op kinds of the pattern."""
+    kw.setdefault("maxrank", 3)
+    kw.setdefault("maxdim", 6)
+    kw.setdefault("zero_axes", 0.0)
+    for i in range(n):
+        g = Directed(rng, **kw)
+        g.new_source()
+        g.last = list(g.env)[-1]
+        pat = patterns[i % len(patterns)]
+        try:
+            for kind in pat:
+                getattr(g, "g_" + kind)()
+        except _Skip:
+            continue
+        yield pat, g
 
 
 class _Skip(Exception):
